@@ -683,6 +683,14 @@ class Exec:
                 st.env[f.value.id] = DictV(z3.K(Val, BoolVal(False)), d.map, BoolVal(False))
                 return NONE
             recv = self.ev(f.value, st)
+            if isinstance(recv, TextV) and f.attr == 'startswith' and 1 <= len(e.args) <= 2 and not e.keywords:
+                lit = self.ev(e.args[0], st)
+                pos = IntVal(0) if len(e.args) == 1 else self.as_int(self.ev(e.args[1], st))
+                if isinstance(lit, StrLit):
+                    self.safety(st, 'startswith-offset-nonneg', e, pos >= 0)      # a negative offset would count from the end
+                    if isinstance(lit.value, bytes) != recv.is_bytes:
+                        raise OutOfSubset('startswith with a literal of the other text type (TypeError)')
+                    return self.slice_eq(TextSlice(recv, pos, pos + len(lit.value)), lit.value)
             h = self.method_hooks.get(f.attr)
             if h is not None:
                 r = h(self, e, recv, st)
@@ -730,7 +738,7 @@ class Exec:
             items = list(x.items) if isinstance(x, Tup) else [x]
             if len(items) != L.arity:
                 raise OutOfSubset('arity of appended tuple')
-            st.env[name] = ArrList([Store(a, L.n, self.box(v)) for a, v in zip(L.arrs, items)], L.n + 1)
+            st.env[name] = ArrList([Store(a, L.n, self.as_int(v) if a.range() == I else self.box(v)) for a, v in zip(L.arrs, items)], L.n + 1)
             return NONE
         if e.args:
             raise OutOfSubset('pop(index)')
